@@ -368,11 +368,57 @@ def gen_ieee(rng, tier):
             yield Case("f.from_f64", ["%x" % v, rng.choice(MODES)])
 
 
+def gen_prec(rng, tier):
+    """with_precision (and with_base_and_precision on the same shapes): significands just above / below a power of the base
+    (B^k + small has k+1 digits although a log2-based estimate may say k; B^k - small has k digits), up to 60 words long, reduced
+    to d-2, d-1, d, d+1 digits, to 1 digit and to 0 (unlimited); source precision unlimited (0: larger than any target, so the
+    value IS rounded), exactly the digit count, and larger; every mode; bases 2, 3, 10, 16, 36; both signs."""
+    import math
+    quick = tier == "quick"
+    bit_sizes = [8, 24, 64, 65, 128, 1000, 3840] if quick else [8, 23, 24, 25, 53, 63, 64, 65, 127, 128, 129, 640, 1920, 3840]
+    for b in (2, 3, 10, 16, 36):
+        for bits in bit_sizes:
+            k = max(2, int(bits / math.log2(b)))
+            smalls = [1, b - 1, b + 1, rng.randrange(1, b * b)]
+            for form in (1, -1):
+                for small in ([rng.choice(smalls)] if quick else smalls):
+                    s0 = b ** k + form * small
+                    if s0 % b == 0:
+                        s0 += 1
+                    d = ndigits(s0, b)
+                    for p in sorted({0, 1, max(1, d - 2), max(1, d - 1), d, d + 1}):
+                        for sp in ([rng.choice([0, d, d + 3])] if quick else [0, d, d + 3]):
+                            for mode in MODES:
+                                s = s0 * rng.choice([1, -1])
+                                e = rng.choice([0, 0, -1, 3, -k, -k - 2, 17])
+                                yield Case("f.with_precision", [farg(b, s, e, sp, mode), dec(p)], nontrivial=True)
+                    # the same shapes through with_base_and_precision (exponent 0: exact-evaluation branch of every pair)
+                    for (bb, nb) in [(x, y) for (x, y) in PAIRS if x == b]:
+                        if quick and rng.random() < 0.6:
+                            continue
+                        d2 = ndigits(s0, nb)
+                        for p in sorted({1, max(1, d2 - 2), max(1, d2 - 1), d2, d2 + 1}):
+                            mode = rng.choice(MODES)
+                            s = s0 * rng.choice([1, -1])
+                            yield Case("f.with_base_prec", [dec(nb), dec(p), farg(b, s, 0, rng.choice([0, d, d + 3]), mode)], nontrivial=True)
+    # random significands and targets
+    for _ in range(300 if quick else 15000):
+        b = rng.choice(BASES)
+        s, e, prec = rand_float(rng, b, tier)
+        d = max(1, ndigits(s, b))
+        sp = rng.choice([0, prec, prec, d + 5]) if s else rng.choice([0, 1, 7])
+        if sp and sp < ndigits(s, b):
+            sp = ndigits(s, b)
+        p = rng.choice([0, 1, 2, max(1, d - 1), d, d + 1, max(1, d // 2), sp, sp + 3])
+        yield Case("f.with_precision", [farg(b, s, e, sp, rng.choice(MODES)), dec(p)], nontrivial=d > 1)
+
+
 def generate(rng, tier):
     yield from gen_parse(rng, tier)
     yield from gen_fmt(rng, tier)
     yield from gen_rt(rng, tier)
     yield from gen_conv(rng, tier)
+    yield from gen_prec(rng, tier)
     yield from gen_ieee(rng, tier)
 
 
@@ -476,7 +522,9 @@ RULE = ("parse: the documented grammar as a generator for bases {2,3,8,10,16,36}
         "15 base pairs x 6 modes, explicit and derived precision, exponents within the exact-evaluation threshold (|e| <= 38) and "
         "any exponent for power-related bases, plus exactly representable values with |e| in 20..38 (18..38 thorough) for every non "
         "power-related pair (must come back Exact); tiny non-zero values under {:.N} for all six modes and both signs; the ln/exp branch (|e| in 39..300) is judged by exact rational arithmetic in the "
-        "harness. IEEE: special bit patterns and random f32/f64. Non-trivial := literal longer than 12 bytes / a precision or "
+        "harness. with_precision (and with_base_and_precision on the same shapes): B^k+-small significands up to 60 words (B^k+small has k+1 digits), "
+        "targets {0, 1, d-2, d-1, d, d+1}, source precision {unlimited, d, d+3}, all six modes, bases 2/3/10/16/36, both signs, plus random ones. "
+        "IEEE: special bit patterns and random f32/f64. Non-trivial := literal longer than 12 bytes / a precision or "
         "width option / non-zero exponent; distinct := distinct case lines.")
 REFINED = [
     "Context::convert_base, branch NewB = B^n (div_rem_euclid of the exponent, multiply, repr_round): exact value handed to repr_round "
@@ -497,8 +545,10 @@ REFINED = [
     "is a literal with exactly p fractional digits (print_precision_text) spelling |R|*B^-p where R is the integer the mode names for "
     "x*B^p — floor/ceil/toward zero/away/nearest-even/nearest-away (print_precision_rounding, builder-float's ModeSpec/roundFract_spec'); "
     "parsing the text returns exactly R*B^-p (print_precision_parse)",
-    "FBig::with_precision (builder-float's model fWithPrecision, driven against the real code by C10): new precision p; rounding contract "
-    "of C03 when digits are dropped, unchanged + Exact otherwise and for p = 0 (with_precision_contract, with_precision_unlimited)",
+    "FBig::with_precision (builder-float's model fWithPrecision, as of fix ee15d7b: a source of unlimited precision is rounded too; driven "
+    "against the real code by this check — op f.with_precision — and by C10): new precision p; rounding contract of C03 when the "
+    "precision shrinks, unchanged + Exact otherwise and for p = 0 (with_precision_contract, with_precision_unlimited); the driver also "
+    "checks contractOk and digits <= p on every case",
     "Context::convert_base, EVERY path that does not go through ln/exp (same base; NewB = B^n; B = NewB^n; |exp| <= regenerated threshold: "
     "multiplication for exp >= 0, repr_div — builder-float's reprDiv_contract, C03 — or the long-dividend single-rounding path of fix bd48ef9 "
     "for exp < 0): the result is the exact value rounded under the contract (convert_base_exact_paths_contract, "
@@ -531,7 +581,7 @@ THEOREMS = ["Dashu.Props.C08." + t for t in [
     "from_ieee_exact", "parse_literal_exact", "print_parse_round_trip", "parse_eq_grammar", "grammar_digit_string", "parse_ok_denotes",
     "print_precision_text", "print_precision_rounding", "print_precision_parse", "with_precision_contract", "with_precision_unlimited",
     "display_padding_keeps_digits", "scientific_padding_keeps_digits", "padded_print_parse_round_trip", "padded_print_precision_parse",
-    "convert_base_long_dividend_contract", "convert_base_exact_paths_contract", "convert_base_result_digits"]]
+    "convert_base_long_dividend_contract", "convert_base_exact_paths_contract", "convert_base_result_digits", "with_base_precision_model"]]
 EXPLANATION = ("Partial. Proved for all bases, modes, precisions and operands: the three exact-evaluation branches of base conversion "
                "round the exact value (contract of C03: exact iff representable, else < 1 ulp on the mode's side, truthful flag); "
                "the documented with_base precision; exactness of the f32/f64 import; the literal parser equals the documented grammar on every byte "
